@@ -62,16 +62,22 @@ class Socket:
         try:
             if timeout != 0:
                 self.sock.settimeout(timeout)
-            data = self.sock.recv(256)
+            data = self._recv()
             while len(data) < 4:  # the length field (bytes 2-3) may arrive in a later segment
-                data += self.sock.recv(256)
+                data += self._recv()
             data_len = struct.unpack_from("<H", data, 2)[0]
             while len(data) - HEADER_SIZE < data_len:
-                data += self.sock.recv(256)
+                data += self._recv()
 
             return data
         except socket.error as err:
             raise CommError("socket connection broken") from err
+
+    def _recv(self):
+        chunk = self.sock.recv(256)
+        if not chunk:  # recv returns b"" once the peer has closed: the frame can never complete
+            raise CommError("socket connection broken")
+        return chunk
 
     def close(self):
         self.sock.close()
